@@ -58,6 +58,17 @@ def one_run(ck, rng, stats, mode, conf_text, stdin_msg=None, samples=None, varia
         sb.add(src, 'new', LONG_MSG, mtime=1500000100)
     conf = sb.write_conf(text)
     before = sb.tree()
+    def dir_times():
+        out = {}
+        for dp, dn, fn in os.walk(sb.root):
+            for n in dn:
+                p_ = os.path.join(dp, n)
+                rel = os.path.relpath(p_, sb.root)
+                if rel.startswith('helper-out'):
+                    continue
+                out[rel] = os.lstat(p_).st_mtime_ns
+        return out
+    dbefore = dir_times()
     log = os.path.join(sb.root, 'trace.log')
     env = {'VFIO_LOG': log, 'VFIO_ROOT': sb.root, 'VERIF_HELPER_OUT': hout}
     if variant == 'dtunknown':
@@ -71,6 +82,9 @@ def one_run(ck, rng, stats, mode, conf_text, stdin_msg=None, samples=None, varia
         trace = parse_trace([l.rstrip('\n') for l in open(log, errors='replace')])
         os.unlink(log)
     after = sb.tree()
+    dafter = dir_times()
+    # the spool directory of stdin mode is created in and removed from TMPDIR: its modification time may change
+    dchanged = sorted(k for k in set(dbefore) | set(dafter) if dbefore.get(k) != dafter.get(k) and not (stdin_msg is not None and k == 'tmp'))
     rep = {'mode': mode, 'stdin': stdin_msg is not None, 'variant': variant, 'config': text, 'exit': rc, 'stderr': err[-300:].decode(errors='replace')}
     # ---- monitor -----------------------------------------------------------------------------------
     diff = [k for k in set(before) | set(after) if before.get(k) != after.get(k) and not k.startswith('helper-out')]
@@ -84,6 +98,8 @@ def one_run(ck, rng, stats, mode, conf_text, stdin_msg=None, samples=None, varia
     bad = None
     if diff:
         bad = 'the sandbox changed: %s' % sorted(diff)[:4]
+    elif dchanged:
+        bad = 'the modification time of director%s %s changed (something was created or removed there)' % ('y' if len(dchanged) == 1 else 'ies', dchanged[:4])
     elif any(a != b'cond' for a in argvs):
         bad = 'an exec action was run: helper calls %r' % argvs[:4]
     elif 'n' in mode:          # -n, also combined with -d in any order or spelling
@@ -92,8 +108,13 @@ def one_run(ck, rng, stats, mode, conf_text, stdin_msg=None, samples=None, varia
             bad = 'syntax check touched something: %s' % [(c['call'], c['args'][:60]) for c in touched[:4]]
     else:
         # dry run: no mutating call outside the stdin spool (which must be created and removed: net effect none)
-        spool = '@/tmp/'
-        mut = [c for c in trace if c['call'] in MUTATING and not c['args'].startswith(spool) and spool not in c['args'].split(' ')[0]]
+        # stdin mode: the spool DIRECTORY created by mkdtemp (and what is inside it) is the one thing -d may create and must
+        # remove again; anything else under TMPDIR (e.g. a temporary file for exec stdin body) is a mutation like any other
+        spools = [c['args'].split(' ')[0] for c in trace if c['call'] == 'mkdtemp'] if stdin_msg is not None else []
+        def in_spool(c):
+            a0 = c['args'].split(' ')[0]
+            return any(a0 == sp or a0.startswith(sp + '/') or (' ' in c['args'] and c['args'].split(' ')[1].startswith(sp)) for sp in spools)
+        mut = [c for c in trace if c['call'] in MUTATING and not in_spool(c)]
         forks = [c for c in trace if c['call'] == 'fork']
         if mut:
             bad = 'mutating call(s) under -d: %s' % [(c['call'], c['args'][:60]) for c in mut[:4]]
